@@ -18,6 +18,7 @@ import (
 	"sigs.k8s.io/controller-runtime/pkg/reconcile"
 
 	edsv1 "github.com/DataDog/extendeddaemonset/api/v1alpha1"
+	edsctl "github.com/DataDog/extendeddaemonset/controllers/extendeddaemonset"
 	"github.com/DataDog/extendeddaemonset/pkg/controller/utils/comparison"
 
 	"verifharness/canon"
@@ -349,15 +350,40 @@ func streamEdsReconcile(r *rand.Rand, i int, tier string) *Case {
 	stored := &edsv1.ExtendedDaemonSet{}
 	_ = cl.Get(context.TODO(), types.NamespacedName{Namespace: testNS, Name: testEDS}, stored)
 	in := map[string]interface{}{"eds": canon.CEDS(stored), "ers": cers, "pods": cpods, "nodes": cnodes, "defaultMode": string(mode)}
+	out, nowC := runEdsReconcile(rec, wl, testNS, testEDS)
+	in["now"] = nowC
+	cat = append(cat, "kind:"+out.Kind)
+	if out.Created != nil {
+		cat = append(cat, "creates-ers")
+	}
+	if len(out.DeletedErs) > 0 {
+		cat = append(cat, "deletes-ers")
+	}
+	if out.StatusUpdate != nil {
+		cat = append(cat, "status-update", "state:"+out.StatusUpdate.State)
+		if out.StatusUpdate.ActiveReplicaSet != eds.Status.ActiveReplicaSet {
+			cat = append(cat, "active-changes")
+		}
+	}
+	if out.SpecHash != nil {
+		cat = append(cat, "spec-update")
+	}
+	if out.Defaulted != nil {
+		cat = append(cat, "defaulting-update")
+	}
+	return &Case{Fn: "eds_reconcile", In: in, Out: out, Cat: dedup(cat)}
+}
+
+// runEdsReconcile runs one Reconcile of the EDS (ns, name) and canonicalises the writes recorded in wl.
+func runEdsReconcile(rec *edsctl.Reconciler, wl *writeLog, ns, name string) (edsOutJ, int64) {
 	t0 := time.Now()
 	var res reconcile.Result
 	var err error
 	p, _ := Recovered(func() {
-		res, err = rec.Reconcile(context.TODO(), reconcile.Request{NamespacedName: types.NamespacedName{Namespace: testNS, Name: testEDS}})
+		res, err = rec.Reconcile(context.TODO(), reconcile.Request{NamespacedName: types.NamespacedName{Namespace: ns, Name: name}})
 	})
 	t1 := time.Now()
 	nowC := canon.T(t0)
-	in["now"] = nowC
 	lo, hi := canon.T(t0.Truncate(time.Second)), canon.T(t1)
 	out := edsOutJ{Kind: "ok", DeletedErs: []string{}, SpecAnn: []canon.KV{}, Order: wl.Order, Foreign: []string{}}
 	if out.Order == nil {
@@ -390,7 +416,7 @@ func streamEdsReconcile(r *rand.Rand, i int, tier string) *Case {
 	for _, o := range wl.Deleted {
 		if e, ok := o.(*edsv1.ExtendedDaemonSetReplicaSet); ok {
 			out.DeletedErs = append(out.DeletedErs, e.Name)
-			if e.Namespace != testNS || e.Labels[edsv1.ExtendedDaemonSetNameLabelKey] != testEDS {
+			if e.Namespace != ns || e.Labels[edsv1.ExtendedDaemonSetNameLabelKey] != name {
 				out.Foreign = append(out.Foreign, "delete:ERS/"+e.Namespace+"/"+e.Name)
 			}
 		} else {
@@ -399,7 +425,7 @@ func streamEdsReconcile(r *rand.Rand, i int, tier string) *Case {
 	}
 	sort.Strings(out.DeletedErs)
 	for _, o := range wl.Status {
-		if d, ok := o.(*edsv1.ExtendedDaemonSet); ok && d.Namespace == testNS && d.Name == testEDS {
+		if d, ok := o.(*edsv1.ExtendedDaemonSet); ok && d.Namespace == ns && d.Name == name {
 			st := canon.CEDSStatus(&d.Status)
 			normStatusTimes(&st, lo, hi, nowC)
 			out.StatusUpdate = &st
@@ -408,7 +434,7 @@ func streamEdsReconcile(r *rand.Rand, i int, tier string) *Case {
 		}
 	}
 	for _, o := range wl.Updated {
-		if d, ok := o.(*edsv1.ExtendedDaemonSet); ok && d.Namespace == testNS && d.Name == testEDS {
+		if d, ok := o.(*edsv1.ExtendedDaemonSet); ok && d.Namespace == ns && d.Name == name {
 			if out.StatusUpdate == nil && len(wl.Status) == 0 {
 				// the defaulting update
 				cs := canon.CStrategy(&d.Spec.Strategy)
@@ -426,24 +452,5 @@ func streamEdsReconcile(r *rand.Rand, i int, tier string) *Case {
 	for _, o := range wl.Patched {
 		out.Foreign = append(out.Foreign, "patch:"+kindOf(o)+"/"+o.GetName())
 	}
-	cat = append(cat, "kind:"+out.Kind)
-	if out.Created != nil {
-		cat = append(cat, "creates-ers")
-	}
-	if len(out.DeletedErs) > 0 {
-		cat = append(cat, "deletes-ers")
-	}
-	if out.StatusUpdate != nil {
-		cat = append(cat, "status-update", "state:"+out.StatusUpdate.State)
-		if out.StatusUpdate.ActiveReplicaSet != eds.Status.ActiveReplicaSet {
-			cat = append(cat, "active-changes")
-		}
-	}
-	if out.SpecHash != nil {
-		cat = append(cat, "spec-update")
-	}
-	if out.Defaulted != nil {
-		cat = append(cat, "defaulting-update")
-	}
-	return &Case{Fn: "eds_reconcile", In: in, Out: out, Cat: dedup(cat)}
+	return out, nowC
 }
